@@ -154,6 +154,7 @@ package ingress
 //@   loop 1 invariant [envelope_stable] env.Payload == body && env.Route == route && env.Headers == headers && env.LeaseID == "" && env.LeaseUntil == 0 && env.Attempt == 0 && env.State == "" && env.ID == ""
 //@   loop 1 invariant [auth_stable] authPassed(s)
 //@   calls queue.Store.Enqueue requires [C08:enqueue_only_when_every_authenticator_accepted] authPassed(s)
+//@   calls (*Server).resolveRoute requires [C10:route_is_resolved_on_the_cleaned_decoded_request_path] arg1 == r && arg2 == cleanpath(r.URL.Path)
 //@   calls queue.Store.Enqueue requires [C10:enqueue_only_for_resolved_route] arg1.Route == route && (s.ResolveRoute != nil ==> routeResolved && route == resolvedRoute)
 //@   calls queue.Store.Enqueue requires [C07:payload_is_the_body_read] arg1.Payload == body && body == bodyRead && arg1.Headers == headers && arg1.Target == target
 //@   calls queue.Store.Enqueue requires [C12:within_body_limit] len(arg1.Payload) <= bodyLimit && (s.AllowRequestFor != nil ==> rateAllowed)
